@@ -160,15 +160,20 @@ pub fn run(toks: &[&str]) -> Lines {
     res
 }
 
-async fn run_async(ops: Vec<Vec<String>>, base: PathBuf, tp: Arc<ThreadPool>) -> Lines {
+async fn run_async(ops: Vec<Vec<String>>, root: PathBuf, tp: Arc<ThreadPool>) -> Lines {
+    // the store lives in root/g<k>; the op `M` renames it, which leaves the disk state as it is and makes every
+    // later session meet it the way a new process would (the crate caches shard file managers per directory)
+    let mut generation = 0usize;
+    let mut base = root.join("g0");
+    std::fs::create_dir_all(&base).unwrap();
     let mut out: Lines = vec![];
     let mut why: Vec<String> = vec![];
     let maxb = *deduplication::constants::MAX_XORB_BYTES;
     let maxc = *deduplication::constants::MAX_XORB_CHUNKS;
     let target = *deduplication::constants::TARGET_CHUNK_SIZE;
     let max_chunk = target * *deduplication::constants::MAXIMUM_CHUNK_MULTIPLIER;
-    let xorb_dir = base.join("xet/xorbs/xorbs");
-    let shard_dir = base.join("xet/xorbs/shards");
+    let mut xorb_dir = base.join("xet/xorbs/xorbs");
+    let mut shard_dir = base.join("xet/xorbs/shards");
     let mut files: Vec<FileRec> = vec![];
     let mut session: Option<Arc<FileUploadSession>> = None;
     let mut sess_salt = [0u8; 32];
@@ -194,6 +199,18 @@ async fn run_async(ops: Vec<Vec<String>>, base: PathBuf, tp: Arc<ThreadPool>) ->
                         session = None;
                     },
                 }
+            },
+            "M" => {
+                if session.is_some() {
+                    continue;
+                }
+                generation += 1;
+                let nb = root.join(format!("g{}", generation));
+                std::fs::rename(&base, &nb).unwrap();
+                base = nb;
+                xorb_dir = base.join("xet/xorbs/xorbs");
+                shard_dir = base.join("xet/xorbs/shards");
+                out.push(("obs", format!("M{}", generation)));
             },
             "f" | "fp" => {
                 let Some(s) = session.clone() else { continue };
